@@ -276,6 +276,16 @@ func RistrettoScalar() *rapid.Generator[[]byte] {
 		if err != nil {
 			panic(err)
 		}
+		if rapid.IntRange(0, 11).Draw(t, "boundary") == 0 {
+			// canonical scalars at the top of the range and around 2^252 (l = 2^252 + 27742317777372353535851937790883648493)
+			l, _ := new(big.Int).SetString("7237005577332262213973186563042994240857116359379907606001950938285454250989", 10)
+			p252 := new(big.Int).Lsh(big.NewInt(1), 252)
+			v := rapid.SampledFrom([]*big.Int{new(big.Int).Sub(l, big.NewInt(1)), new(big.Int).Sub(l, big.NewInt(2)), p252, new(big.Int).Add(p252, big.NewInt(1)), new(big.Int).Sub(p252, big.NewInt(1)), new(big.Int).Lsh(big.NewInt(1), 251)}).Draw(t, "boundaryValue")
+			be := v.FillBytes(make([]byte, 32))
+			for i := range b {
+				b[i] = be[31-i]
+			}
+		}
 		return b
 	})
 }
